@@ -60,6 +60,18 @@ class Slot:
         self.log: Path | None = None
 
 
+def _kill_group(proc: subprocess.Popen) -> None:
+    import signal
+
+    try:
+        os.killpg(proc.pid, signal.SIGKILL)
+    except (ProcessLookupError, PermissionError):
+        try:
+            proc.kill()
+        except ProcessLookupError:
+            pass
+
+
 def run_check(pid: str, tier: str, seed: int) -> int:
     t0 = time.time()
     ensure_deps()
@@ -110,6 +122,7 @@ def run_check(pid: str, tier: str, seed: int) -> int:
         slot.proc = subprocess.Popen(
             [PY, "-m", "vf.worker", str(jobfile)], env=env, cwd=str(ROOT),
             stdout=open(slot.log, "w"), stderr=subprocess.STDOUT,
+            start_new_session=True,  # own process group: grandchildren (selene, C10 children) die with it
         )
 
     def drain(slot: Slot) -> None:
@@ -181,7 +194,7 @@ def run_check(pid: str, tier: str, seed: int) -> int:
             watchdog_fired = True
             for s in slots:
                 if s.proc is not None:
-                    s.proc.kill()
+                    _kill_group(s.proc)
                     s.proc.wait()
                     drain(s)
                     s.proc = None
